@@ -789,6 +789,7 @@ class DirectoryRecord:
         # see if the child to be added is a duplicate with the entry that
         # bisect_left returned.
         index = bisect.bisect_left(self.children, child)
+        is_continuation = False
         if index != len(self.children) and self.children[index].file_ident == child.file_ident:
             if not self.children[index].is_associated_file() and not child.is_associated_file():
                 # Some ISOs in the wild have duplicate names in the Rock Ridge
@@ -798,19 +799,9 @@ class DirectoryRecord:
                     if not allow_duplicate:
                         raise pycdlibexception.PyCdlibInvalidInput('Failed adding duplicate name to parent')
 
-                    # bisect_left found the first record of this name.  A
-                    # very large file may already consist of several records,
-                    # which directly follow each other; the new child continues
-                    # the last one of them.
-                    last_part = self.children[index]
-                    index += 1
-                    while last_part.data_continuation is not None:
-                        last_part = last_part.data_continuation
-                        index += 1
-                    last_part.data_continuation = child
-                    last_part.file_flags |= (1 << self.FILE_FLAG_MULTI_EXTENT_BIT)
-        self.children.insert(index, child)
+                    is_continuation = True
 
+        rr_index = -1
         if child.rock_ridge is not None and not child.is_dot() and not child.is_dotdot():
             lo = 0
             hi = len(self.rr_children)
@@ -826,6 +817,33 @@ class DirectoryRecord:
                     raise pycdlibexception.PyCdlibInternalError('Expected all children to have Rock Ridge, but one did not')
             rr_index = lo
 
+            # The Rock Ridge names in a directory have to be unique too.  As
+            # above this is only enforced for new entries, not while parsing.
+            # The further extents of a very large file share the name of the
+            # first one, and a relocated directory is not part of the Rock
+            # Ridge namespace of the relocation directory it is stored in.
+            if check_overflow and not is_continuation and not child.rock_ridge.relocated_record():
+                for other_index in range(rr_index, len(self.rr_children)):
+                    other_rr = self.rr_children[other_index].rock_ridge
+                    if other_rr is None or other_rr.name() != child.rock_ridge.name():
+                        break
+                    if not other_rr.relocated_record():
+                        raise pycdlibexception.PyCdlibInvalidInput('Failed adding duplicate Rock Ridge name to parent')
+
+        if is_continuation:
+            # bisect_left found the first record of this name.  A very large
+            # file may already consist of several records, which directly
+            # follow each other; the new child continues the last one of them.
+            last_part = self.children[index]
+            index += 1
+            while last_part.data_continuation is not None:
+                last_part = last_part.data_continuation
+                index += 1
+            last_part.data_continuation = child
+            last_part.file_flags |= (1 << self.FILE_FLAG_MULTI_EXTENT_BIT)
+        self.children.insert(index, child)
+
+        if rr_index >= 0:
             self.rr_children.insert(rr_index, child)
 
         # We now have to check if we need to add another logical block.
@@ -858,8 +876,8 @@ class DirectoryRecord:
 
         return overflowed
 
-    def check_new_child(self, name):
-        # type: (bytes) -> None
+    def check_new_child(self, name, rr_name=None):
+        # type: (bytes, Optional[bytes]) -> None
         """
         Check that a new child with the given identifier can be added to this
         directory record.  This raises what add_child() would raise for such a
@@ -867,6 +885,8 @@ class DirectoryRecord:
 
         Parameters:
          name - The identifier of the child that is going to be added.
+         rr_name - The Rock Ridge name of the child that is going to be added,
+                   if it has one.
         Returns:
          Nothing.
         """
@@ -884,6 +904,14 @@ class DirectoryRecord:
         if index != len(self.children) and self.children[index].file_ident == name:
             if not self.children[index].is_associated_file():
                 raise pycdlibexception.PyCdlibInvalidInput('Failed adding duplicate name to parent')
+
+        if rr_name is not None:
+            # The Rock Ridge names in a directory have to be unique too; a
+            # relocated directory is not part of the Rock Ridge namespace of
+            # the relocation directory it is stored in.
+            for rr_child in self.rr_children:
+                if rr_child.rock_ridge is not None and rr_child.rock_ridge.name() == rr_name and not rr_child.rock_ridge.relocated_record():
+                    raise pycdlibexception.PyCdlibInvalidInput('Failed adding duplicate Rock Ridge name to parent')
 
     def add_child(self, child, logical_block_size, allow_duplicate=False):
         # type: (DirectoryRecord, int, bool) -> bool
